@@ -145,6 +145,117 @@ func sliceAccumulator(v ssa.Value, loops []*core.Loop) (*core.Loop, *ssa.Call, [
 	return loop, app, elems, true
 }
 
+// sliceFiller recognises
+//
+//	ws := make([]T, len(m)); i := 0; for k := range m { ws[i] = k; i++ }
+//
+// — ws has exactly len(m) elements, position i receives the key of the i-th trip, i goes up by one on
+// every trip, nothing else writes ws and m does not change after ws was sized: ws holds every key once.
+// Returns the loop, the store, and the stored value.
+func sliceFiller(fn *ssa.Function, v ssa.Value, loops []*core.Loop) (*core.Loop, ssa.Instruction, []ssa.Value, string) {
+	mk, ok := core.StripType(v).(*ssa.MakeSlice)
+	if !ok {
+		return nil, nil, nil, "not a make"
+	}
+	m, isLen := core.LenOf(mk.Len)
+	if !isLen {
+		return nil, nil, nil, "its length is not len(map)"
+	}
+	if _, isMap := m.Type().Underlying().(*types.Map); !isMap {
+		return nil, nil, nil, "its length is not the size of a map"
+	}
+	var store *ssa.Store
+	for _, ref := range core.Referrers(mk) {
+		switch x := ref.(type) {
+		case *ssa.IndexAddr:
+			for _, r2 := range core.Referrers(x) {
+				st, isSt := r2.(*ssa.Store)
+				if !isSt || st.Addr != ssa.Value(x) {
+					continue
+				}
+				if store != nil {
+					return nil, nil, nil, "more than one store into the slice"
+				}
+				store = st
+			}
+		case *ssa.Slice:
+			return nil, nil, nil, "the slice is re-sliced"
+		case *ssa.Call:
+			if core.IsBuiltin(x, "append") || core.IsBuiltin(x, "copy") {
+				return nil, nil, nil, "the slice is also appended to or copied into"
+			}
+		}
+	}
+	if store == nil {
+		return nil, nil, nil, "no store into the slice"
+	}
+	loop := core.InnermostLoop(loops, store.Block())
+	if loop == nil {
+		return nil, nil, nil, "the store is not in a loop"
+	}
+	ri, ok := core.AsRange(loop)
+	if !ok || ri.Kind != "map" || ri.X != m {
+		return nil, nil, nil, "the filling loop does not range over the map that sized the slice"
+	}
+	idx, ok := store.Addr.(*ssa.IndexAddr).Index.(*ssa.Phi)
+	if !ok || idx.Block() != loop.Header {
+		return nil, nil, nil, "the position is not a counter of the loop"
+	}
+	for i, e := range idx.Edges {
+		if !loop.Blocks[idx.Block().Preds[i]] {
+			if z, isC := core.ConstInt(e); !isC || z != 0 {
+				return nil, nil, nil, "the position does not start at 0"
+			}
+			continue
+		}
+		bo, isBo := e.(*ssa.BinOp)
+		if !isBo || bo.Op != token.ADD || bo.X != ssa.Value(idx) {
+			return nil, nil, nil, "the position is not advanced by exactly one on every trip"
+		}
+		if k, isC := core.ConstInt(bo.Y); !isC || k != 1 {
+			return nil, nil, nil, "the position is not advanced by exactly one on every trip"
+		}
+	}
+	// the map keeps its size between the make and the end of the loop
+	dels, upds := mapMutations(fn, m)
+	reach := reachableFromBlock(mk.Block())
+	after := func(in ssa.Instruction) bool {
+		if in.Block() != mk.Block() {
+			return reach[in.Block()]
+		}
+		seenMk := false
+		for _, x := range mk.Block().Instrs {
+			if x == ssa.Instruction(mk) {
+				seenMk = true
+			}
+			if x == in {
+				return seenMk || reach[in.Block()] && loopContains(loops, in.Block())
+			}
+		}
+		return true
+	}
+	for _, d := range dels {
+		if after(d) {
+			return nil, nil, nil, "the map is modified after the slice was sized"
+		}
+	}
+	for _, u := range upds {
+		if after(u) {
+			return nil, nil, nil, "the map is modified after the slice was sized"
+		}
+	}
+	return loop, store, []ssa.Value{store.Val}, ""
+}
+
+func loopContains(loops []*core.Loop, b *ssa.BasicBlock) bool {
+	for _, l := range loops {
+		if l.Blocks[b] {
+			return true
+		}
+	}
+	return false
+}
+
 // mapMutations lists deletes and updates of map m in fn.
 func mapMutations(fn *ssa.Function, m ssa.Value) (dels []*ssa.Call, upds []*ssa.MapUpdate) {
 	core.Instrs(fn, func(in ssa.Instruction) {
@@ -590,11 +701,18 @@ func checkKeptSet(p *core.Program, r *core.Report, c *wlCtor) bool {
 		r.Unrecognised("R10.2", name, "words field", p.Pos(fn.Pos()), "no []string field is stored into the result")
 		return false
 	}
-	loop, app, elems, ok := sliceAccumulator(wordsV, c.loops)
+	var app ssa.Instruction
+	loop, appCall, elems, ok := sliceAccumulator(wordsV, c.loops)
+	app = appCall
 	if !ok {
-		r.Fail("R10.2", name, "kept words are accumulated by appending map keys", p.Pos(fn.Pos()),
-			"the value stored into "+wordsField+" is not `phi(nil, append(acc, key))` over a range loop: "+core.Describe(wordsV))
-		return false
+		// the other way to collect the keys: a slice made with len(map) elements, filled by position
+		var why string
+		loop, app, elems, why = sliceFiller(fn, wordsV, c.loops)
+		if loop == nil {
+			r.Fail("R10.2", name, "kept words are accumulated by appending map keys", p.Pos(fn.Pos()),
+				"the value stored into "+wordsField+" is neither `phi(nil, append(acc, key))` over a range loop nor a slice of len(map) elements filled by position ("+why+"): "+core.Describe(wordsV))
+			return false
+		}
 	}
 	ri, ok := core.AsRange(loop)
 	if !ok || ri.Kind != "map" {
